@@ -166,6 +166,10 @@ def main(ctx):
         json.dump(ctx.params, f)
 
     # --replay: re-evaluate the recorded call(s) of a replay artefact on the current code
+    if getattr(ctx, "replay", None) and "scenario" in (json.load(open(ctx.replay)).get("payload") or {}):
+        # an artefact of part (b): a behaviour of the real ceremony
+        from props import c17b
+        return vlib.finish(ctx, "model_checking", c17b.run(ctx, quick), assumptions=c17b.ASSUMPTIONS)
     if getattr(ctx, "replay", None):
         doc = json.load(open(ctx.replay))
         calls = ctx.path("replay_calls.ndjson")
@@ -234,7 +238,12 @@ def main(ctx):
                 "12/13/23/24, short counts 0/1/2/3, required flips met / one short), plus %d seeded random concrete inputs; every "
                 "recorded call validated by TLC (property clauses on the observed status + equality with Decide)" % (reps, nrand),
     }
-    return vlib.finish(ctx, "model_checking", cov, assumptions=[
+    # part (b): the real ceremony in variants (restart points, cached re-evaluation, fork switch, rollback, block layouts)
+    from props import c17b
+    cov["real_ceremony"] = c17b.run(ctx, quick)
+    cov["states"] += cov["real_ceremony"].get("states", 0)
+    cov["transitions"] += cov["real_ceremony"].get("transitions", 0)
+    return vlib.finish(ctx, "model_checking", cov, assumptions=c17b.ASSUMPTIONS + [
         "scores are non-negative float32 values; short and long scores are never NaN (the ceremony guards those divisions), the total "
         "score may be NaN (0/0) and then fails every threshold",
         "required / made flips fit the code's uint8 counters",
